@@ -24,12 +24,17 @@ func key(label string) *stg.Key {
 	return k
 }
 
+// assSalt: salt of the history being run (runs are strictly sequential)
+var assSalt string
+
 func refKey(ref int) *stg.Key {
 	switch {
 	case ref >= refSC:
 		return &stg.Key{ID: stg.ADDRESS}
 	case ref >= refAssigner:
-		return key(fmt.Sprint("fa", ref-refAssigner))
+		// assigner identities are private to a history (code that remembers something per assigner id in the
+		// process must not carry it from one history, or one shrink attempt, to the next)
+		return key(fmt.Sprint("fa", ref-refAssigner, "-", assSalt))
 	case ref >= refVStaker:
 		return key(fmt.Sprint("vs", ref-refVStaker))
 	case ref >= refStaker2:
@@ -109,6 +114,7 @@ type ValProj struct {
 type AssProj struct {
 	Indiv, Total, Redeemed uint64
 	Nonces                 []int64
+	Key                    int // number of the registered public key (assKey generation; -1 = not one of the engine's keys)
 }
 
 type Snap struct {
@@ -177,6 +183,16 @@ func (r *Run) ref(id string) int {
 	return -1
 }
 
+// assKey: the g-th key pair of the assigner with reference `ass` (0 = the one derived from its id)
+func assKey(ass, g int) *stg.Key {
+	if g <= 0 {
+		return refKey(ass)
+	}
+	return key(fmt.Sprintf("assigner-%d-key-%d-%s", ass, g, assSalt))
+}
+
+const intruderKeyNum = 99
+
 func rootStr(n int) string {
 	if n == 0 {
 		return ""
@@ -188,6 +204,7 @@ func rootStr(n int) string {
 // validators, funded clients. Setup uses real transactions (add_blobber, stake_pool_lock,
 // add_validator); it panics when one of them fails (a broken setup is an engine bug).
 func NewRun(h Hist) *Run {
+	assSalt = h.Salt
 	r := &Run{H: h, W: stg.NewWorld(h.Salt), Now: 1_000_000, Allocs: map[int]string{}, AllocRR: map[int][4]uint64{},
 		IDRef: map[string]int{}, ChNum: map[string]int{}, ChID: map[int]string{}, Roots: map[[2]int]int{}, LWMPrev: map[[2]int]int{}, Kinds: map[string]int{}, readSeen: map[[3]int]bool{}}
 	w := r.W
@@ -373,7 +390,13 @@ func (r *Run) Snapshot() *Snap {
 				panic(err)
 			}
 			if a != nil {
-				s.Ass[ref] = &AssProj{Indiv: a.IndividualLimit, Total: a.TotalLimit, Redeemed: a.CurrentRedeemed, Nonces: a.RedeemedNonces}
+				kn := -1
+				for g := 0; g < 4; g++ {
+					if assKey(ref, g).PK == a.PublicKey {
+						kn = g
+					}
+				}
+				s.Ass[ref] = &AssProj{Indiv: a.IndividualLimit, Total: a.TotalLimit, Redeemed: a.CurrentRedeemed, Nonces: a.RedeemedNonces, Key: kn}
 			}
 		}
 	}
